@@ -73,6 +73,22 @@ func c19(r *core.Run) {
 			}
 		}
 	}
+	// the inbox channel can hold a message while SendRequest is not parked in the select: the NATS
+	// client delivers to channel subscriptions with a non-blocking send and drops what does not fit
+	{
+		chArg := subCall.Common().Args[len(subCall.Common().Args)-1]
+		buffered := false
+		desc := valDesc(chArg)
+		for _, lf := range valueLeaves(chArg, nil, 0) {
+			if mk, ok := lf.V.(*ssa.MakeChan); ok {
+				if n, ok := core.ConstInt(mk.Size); ok {
+					buffered = n >= 1
+					desc = fmt.Sprintf("make(chan, %d)", n)
+				}
+			}
+		}
+		r.Check(buffered, "U1", fname, "inbox-channel-is-buffered", p.InstrPos(subCall), "the inbox channel has capacity >= 1", "the inbox channel is "+desc+": a response that arrives while SendRequest is handling a pre-response (or running an extension callback) is dropped by the client's non-blocking send, and SendRequest reports a timeout although a response arrived in time")
+	}
 	// the interest must last until SendRequest returns: nothing but the release touches the subscription
 	{
 		var subV ssa.Value
